@@ -1402,3 +1402,50 @@ def tokio_wait(chk, P, prefix):
             raise mir.AnchorMissing("paths of tokio::wait (found %d)" % n)
         return True, "", [b.span]
     chk.ob("%s.R4:tokio::wait" % prefix, "the async wait reports completion only when the notifier fired; an elapsed or zero timeout is false", f)
+
+
+def batch_error_helpers(chk, P, prefix):
+    """BatchError carries the remainder to retry: the constructors and conversions keep it exactly."""
+    BE = "emit_batcher::BatchError::<T>::"
+
+    def f():
+        sites = []
+        b = P.body(BE + "no_retry")
+        o = b.origin(0)
+        if not (o[0] == "agg" and dict(zip(o[1]["fields"], o[2]))["retryable"][0] == "agg"
+                and dict(zip(o[1]["fields"], o[2]))["retryable"][1].get("variant") == "None"):
+            return False, "no_retry must carry no remainder", [], b.span
+        sites.append(b.span)
+        b = P.body(BE + "retry")
+        o = b.origin(0)
+        rv = dict(zip(o[1]["fields"], o[2]))["retryable"] if o[0] == "agg" else None
+        if not (rv and rv[0] == "agg" and rv[1].get("variant") == "Some" and mir.o_is_param(rv[2][0], idx=2)):
+            return False, "retry(err, remainder) must carry exactly the given remainder", [], b.span
+        sites.append(b.span)
+        b = P.body(BE + "into_retryable")
+        if mir.o_field_path(b.origin(0))[1] != ["retryable"] or b.calls(normal_only=True):
+            return False, "into_retryable must return the carried remainder as it is", [], b.span
+        sites.append(b.span)
+        b = P.body(BE + "try_into_retryable")
+        cs = [c for c in b.calls(normal_only=True)]
+        if len(cs) != 1 or cs[0].callee.get("name") not in ("ok_or_else", "ok_or") or mir.o_field_path(b.origin(cs[0].args[0]))[1] != ["retryable"]:
+            return False, "try_into_retryable must be self.retryable.ok_or_else(..)", [], b.span
+        sites.append(b.span)
+        b = P.body(BE + "map_retryable")
+        calls = [c for c in b.calls(normal_only=True) if c.callee.get("name") in ("call_once", "call_mut", "call")]
+        allc = [c for c in b.calls(normal_only=True)]
+        if len(calls) != 1 or len(allc) != 1 or b.count_on_paths({calls[0].bb}) != (1, 1):
+            return False, ("map_retryable must call its function exactly once, on every path, with the carried remainder (found calls %s): a "
+                           "processor that turns a non-retryable inner error into a retry by supplying a remainder would otherwise lose it"
+                           % [c.callee.get("name") for c in allc]), [], b.span
+        arg = b.origin(calls[0].args[1])
+        inner = arg[2][0] if arg[0] == "agg" and arg[2] else arg
+        if mir.o_field_path(inner)[1] != ["retryable"] or not mir.o_is_param(b.origin(calls[0].args[0]), idx=2):
+            return False, "map_retryable does not hand self.retryable to the given function", [], calls[0].loc
+        o = b.origin(0)
+        rv = dict(zip(o[1]["fields"], o[2]))["retryable"] if o[0] == "agg" else None
+        if not (rv and rv[0] == "call" and rv[1].bb == calls[0].bb):
+            return False, "map_retryable does not carry the function's result as the new remainder", [], b.span
+        sites.append(b.span)
+        return True, "", sites
+    chk.ob("%s.R4:BatchError" % prefix, "BatchError's constructors and conversions carry the remainder unchanged; map_retryable applies its function exactly once to it", f)
